@@ -261,14 +261,11 @@ def kfPValidate (args : List String) : String :=
 
 def kfValidate2 (args : List String) : String :=
   match args with
-  | a :: b :: c :: toks =>
+  | _ :: _ :: _ :: toks =>
     let ms := toks.filterMap parseMessage
-    let k2 := if hasRescaledF64 ms then ["KF-C10-2"] else []
-    -- KF-C10-3: a message with developer fields of which no field survives (it may be accepted as the empty message)
-    let k3 := match parseVArgs a b c with
-      | some va => if ms.any (fun m => !m.devFields.isEmpty && (specFields va.D va.o m.fields).isEmpty) then ["KF-C10-3"] else []
-      | none => []
-    if (k2 ++ k3).isEmpty then "-" else ",".intercalate (k2 ++ k3)
+    -- KF-C10-3 (a message with developer fields of which nothing survives was accepted as the empty message) is
+    -- fixed: no class left for it; such a message must now be rejected (specValidate = none)
+    if hasRescaledF64 ms then "KF-C10-2" else "-"
   | _ => "-"
 
 def withProp (model : List String → String) (prop : List String → String → String) (kf : List String → String) : Handler := fun r =>
